@@ -12,7 +12,7 @@ import (
 // *every* seed.
 
 type Mut struct {
-	Op  string `json:"op"`  // intact trunc tail byte w2 w4 rm1 rm4 rm16 rm512 dup1 dup4 dup16 dup512
+	Op  string `json:"op"`  // intact trunc tail byte w2 w4 rm1 rm4 rm16 rm512 dup1 dup4 dup16 dup512 | structural: rmv dupv swapv zerov (Off = start byte, Val = length of the value's range)
 	Off int    `json:"off"` // trunc: resulting length; tail: bytes cut from the end; else byte offset
 	Val int    `json:"val"` // index into the operator's value table
 }
@@ -30,7 +30,21 @@ func (m Mut) String() string {
 	case "w2", "w4":
 		return fmt.Sprintf("%s@%d=%s", m.Op, m.Off, winValNames[m.Val])
 	}
+	if isStructural(m.Op) {
+		return fmt.Sprintf("%s[%d:%d]", m.Op, m.Off, m.Off+m.Val)
+	}
 	return fmt.Sprintf("%s@%d", m.Op, m.Off)
+}
+
+var structuralOps = []string{"rmv", "dupv", "swapv", "zerov", "onesv"}
+
+func isStructural(op string) bool {
+	for _, o := range structuralOps {
+		if o == op {
+			return true
+		}
+	}
+	return false
 }
 
 var byteValNames = []string{"00", "ff", "7f", "80", "b^01", "b^80"}
@@ -159,6 +173,18 @@ func (m Mut) Applies(seed []byte, T int) bool {
 	if k, _ := blockOf(m.Op); k != "" {
 		return m.Off < n
 	}
+	if isStructural(m.Op) {
+		if m.Val <= 0 || m.Off < 0 || m.Off+m.Val > n {
+			return false
+		}
+		switch m.Op {
+		case "swapv":
+			return m.Off+2*m.Val <= n && !bytes.Equal(seed[m.Off:m.Off+m.Val], seed[m.Off+m.Val:m.Off+2*m.Val])
+		case "zerov":
+			return !bytes.Equal(seed[m.Off:m.Off+m.Val], make([]byte, m.Val))
+		}
+		return true
+	}
 	return false
 }
 
@@ -208,6 +234,32 @@ func (m Mut) Apply(seed []byte) []byte {
 		d := append([]byte{}, seed...)
 		if m.Off+w <= n {
 			copy(d[m.Off:], winBytes(w, m.Val))
+		}
+		return d
+	}
+	if isStructural(m.Op) && m.Val > 0 && m.Off >= 0 && m.Off+m.Val <= n {
+		a, e := m.Off, m.Off+m.Val
+		d := make([]byte, 0, n+m.Val)
+		switch m.Op {
+		case "rmv":
+			d = append(append(d, seed[:a]...), seed[e:]...)
+		case "dupv":
+			d = append(append(append(d, seed[:e]...), seed[a:e]...), seed[e:]...)
+		case "swapv": // with the following range of the same length (array elements of one size)
+			if e+m.Val <= n {
+				d = append(append(append(append(d, seed[:a]...), seed[e:e+m.Val]...), seed[a:e]...), seed[e+m.Val:]...)
+			} else {
+				d = append(d, seed...)
+			}
+		case "zerov", "onesv":
+			d = append(d, seed...)
+			for i := a; i < e; i++ {
+				if m.Op == "zerov" {
+					d[i] = 0
+				} else {
+					d[i] = 0xff
+				}
+			}
 		}
 		return d
 	}
